@@ -1,6 +1,6 @@
 """Which contract groups serve which property."""
 PROPERTY_GROUPS = {
-    'C01': ['rep', 'dt'],
+    'C01': ['rep', 'dt', 'mps'],
     'C02': ['rep', 'mp4'],
     'C03': ['mp4', 'rep'],
     'C04': ['mp4'],
